@@ -132,6 +132,47 @@ def run(tier, seed):
                                     {"oracle": "static", "stimulus": stim, "problems": problems}))
         reqs.append(f"c03.mass {mstr} {vhex(z)} {vhex(p)}")
         metas.append((stim, mom, kin, vel, mk))
+    # the same momentum law in other units: masses (and matrices) 1e-30 .. 1e+30 times the usual ones; reference from the construction values, relative tolerances
+    for _ in range(120 if thorough else 30):
+        d = rnd.choice([1, 2, 3])
+        scale = rnd.choice([1e-30, 1e-20, 1e-16, 1e-12, 1e12, 1e20, 1e30])
+        mk = rnd.choice(["diag", "diag", "full"])
+        base = np.array([rnd.uniform(0.3, 3.0) for _ in range(d)])
+        if mk == "diag":
+            Mtrue = np.diag(base * scale)
+            mass = MM.Diagonal((base * scale).reshape(-1, 1).copy())
+        else:
+            Mtrue = spd(rnd, d) * scale
+            Mtrue = 0.5 * (Mtrue + Mtrue.T)
+            mass = MM.Full(Mtrue.copy())
+        z = np.array([[rnd.gauss(0, 1)] for _ in range(d)])
+        p = np.array([[rnd.gauss(0, 1)] for _ in range(d)]) * math.sqrt(scale)
+        stim = {"mass": {"mass": mk, "matrix": Mtrue.tolist(), "scale": scale}, "z": z.ravel().tolist(), "p": p.ravel().tolist()}
+        st.case(stim, nontrivial=d >= 2)
+        st.count(f"mass scale={scale:g}")
+        problems = []
+        try:
+            with np.errstate(all="ignore"):
+                mass.rng = ScriptedRNG(normals=list(z.ravel()))
+                mom = np.asarray(mass.generate_momentum(), dtype=float).reshape(d, 1)
+                kin = float(mass.kinetic_energy(p.copy()))
+                vel = np.asarray(mass.kinetic_energy_gradient(p.copy()), dtype=float).reshape(d, 1)
+                M = np.array(mass.matrix, dtype=float)
+                kz = float(mass.kinetic_energy(mom.copy()))
+            Mi = np.linalg.inv(Mtrue / scale) / scale
+            if not np.allclose(M, Mtrue, rtol=1e-12, atol=0):
+                problems.append("the reported matrix is not the matrix the object was built from")
+            if not common.close(kin, 0.5 * (p.T @ Mi @ p).item(), 1e-9, 0.0):
+                problems.append(f"kinetic_energy = {kin!r} but ½ pᵀM⁻¹p = {0.5 * (p.T @ Mi @ p).item()!r}")
+            if not np.allclose(vel, Mi @ p, rtol=1e-9, atol=0):
+                problems.append(f"kinetic_energy_gradient = {vel.ravel().tolist()} but M⁻¹p = {(Mi @ p).ravel().tolist()}")
+            if not common.close(kz, 0.5 * (z.T @ z).item(), 1e-9, 0.0):
+                problems.append(f"K(momentum drawn from z) = {kz!r} but ½ zᵀz = {0.5 * (z.T @ z).item()!r}: momentum law and kinetic energy belong to different matrices")
+        except Exception as e:
+            problems.append(f"raised {e!r}")
+        if problems:
+            findings.append(Finding("C03", f"{mk} mass, entries of order {scale:g}: {problems[0]}"[:300], {"kind": "static-scale", "mass": mk, "problem": problems[0][:25]},
+                                    {"oracle": "static", "stimulus": stim, "problems": problems}))
     for (stim, mom, kin, vel, mk), ans in zip(metas, lean_batch(reqs)):
         r = Reader(ans[3:])
         mmom, mkin, mvel = r.vec(), r.flt(), r.vec()
@@ -164,6 +205,7 @@ def run(tier, seed):
         had_refused = False
         pending_update = False
         problems = []
+        cut = False
 
         def public_state():
             Mi = columns(lambda e: bf.kinetic_energy_gradient(e), d)
@@ -206,6 +248,7 @@ def run(tier, seed):
                 if bf.succesful_updates_current != before_ok:
                     # the factorisation went through on rounding noise: nothing meaningful can be compared after this point
                     sb.count("extreme update factorised (history cut)")
+                    cut = True
                     break
                 pieces.append(f"X {vhex(m)} {vhex(g)}")
                 ops.append(("update-refused", m.ravel().tolist(), g.ravel().tolist()))
@@ -230,6 +273,7 @@ def run(tier, seed):
                     # a curvature s.y that happens to be tiny makes the exact BFGS metric nearly singular: identities such as F Fᵀ M⁻¹ = I and the
                     # comparison with the model then hold only up to cond x eps, which says nothing about the code
                     sb.count("update left an ill-conditioned metric, cond > 1e8 (history cut)")
+                    cut = True
                     break
                 pieces.append(f"U {vhex(m)} {vhex(g)}")
                 ops.append(("update", m.ravel().tolist(), g.ravel().tolist()))
@@ -279,6 +323,40 @@ def run(tier, seed):
             if kind == "R":
                 if not (np.allclose(Mi, last_accept[0], rtol=1e-12, atol=0) and np.allclose(F, last_accept[1], rtol=1e-12, atol=0)):
                     problems.append((k, "reject did not restore the state of the last acceptance"))
+        # "a rejection restores exactly the state of the last acceptance": a rejected trajectory leaves no trace. The same history with every rejected
+        # trajectory (the operations between the previous accept/reject and a reject, and the reject itself) left out must end in the same object.
+        if not cut and not problems and any(o[0] == "reject" for o in ops):
+            pruned, pend = [], []
+            for o in ops:
+                if o[0] == "reject":
+                    pend = []
+                elif o[0] == "accept":
+                    pruned += pend + [o]
+                    pend = []
+                elif o[0] != "observe":
+                    pend.append(o)
+            pruned += pend
+            try:
+                with quiet(), np.errstate(all="ignore"):
+                    ref = MM.BFGS(d, m0.copy(), g0.copy(), Minv=Minv0.copy())
+                    for o in pruned:
+                        if o[0] in ("update", "update-refused"):
+                            ref.kinetic_energy_gradient(np.zeros((d, 1)), np.array(o[1]).reshape(-1, 1), np.array(o[2]).reshape(-1, 1))
+                        elif o[0] == "update-queued":
+                            ref.update(np.array(o[1]).reshape(-1, 1), np.array(o[2]).reshape(-1, 1))
+                        elif o[0] == "accept":
+                            ref.accept()
+                    # one more acceptance on both: whatever is still pending (queued) must be the same, too
+                    bf.accept()
+                    ref.accept()
+                    Mi_a = columns(lambda e: bf.kinetic_energy_gradient(e), d)
+                    Mi_b = columns(lambda e: ref.kinetic_energy_gradient(e), d)
+                sb.count("replayed without the rejected trajectories")
+                if not np.allclose(Mi_a, Mi_b, rtol=1e-9, atol=1e-12 * float(np.max(np.abs(Mi_b)))):
+                    problems.append((len(ops) - 1, "a rejected trajectory left a trace: the same history without the rejected trajectories ends in another metric "
+                                     f"(max difference {float(np.max(np.abs(Mi_a - Mi_b))):.3g})"))
+            except Exception as e:
+                problems.append((len(ops) - 1, f"replaying the history without its rejected trajectories raised {e!r}"))
         stim = {"d": d, "Minv0": Minv0.tolist(), "m0": m0.ravel().tolist(), "g0": g0.ravel().tolist(), "ops": ops}
         sb.case(stim, nontrivial=had_update_then_reject)
         sb.count(f"history_len<={4 * ((nops + 3) // 4)}")
